@@ -463,6 +463,44 @@ func ruleC02Safe(p *Prog, a *Anchors, r *Report) {
 			srcs = append(srcs, v)
 		}
 		walk(st.Val, 0)
+		// loop-carried bit: in a loop over steps, the flag of one step must not survive into the next (what a step
+		// takes out of a safe value is not safe because its container was)
+		for v := range seen {
+			phi, ok := v.(*ssa.Phi)
+			if !ok {
+				continue
+			}
+			h := phi.Block()
+			for i, pr := range h.Preds {
+				if !h.Dominates(pr) {
+					continue // entry edge
+				}
+				carried := false
+				seenC := map[ssa.Value]bool{}
+				var back func(x ssa.Value, d int)
+				back = func(x ssa.Value, d int) {
+					if d > 10 || seenC[x] || carried {
+						return
+					}
+					seenC[x] = true
+					if x == ssa.Value(phi) {
+						carried = true
+						return
+					}
+					if ph, isPhi := x.(*ssa.Phi); isPhi {
+						for _, e := range ph.Edges {
+							back(e, d+1)
+						}
+					}
+				}
+				back(phi.Edges[i], 0)
+				if carried {
+					r.Bad(key+"carried", p.InstrPos(in), "the safe bit is carried from one iteration of the loop to the next: a value reached by a later step (a method result, a field, an item) inherits the safe mark of an earlier value on the path and is printed unescaped")
+				} else {
+					r.OK(key+"carried", p.InstrPos(in), "the safe bit is decided anew in every iteration of the loop")
+				}
+			}
+		}
 		// the val stored into the same object
 		obj := st.Addr.(*ssa.FieldAddr).X
 		var valStored ssa.Value
